@@ -624,8 +624,13 @@ size_t w_r0;
 /* ghost recording through the value-model macros (no code is retyped): which values were inverted / tested for zero, how often */
 static int g_inv_calls; static V g_inv_arg[NMAX + 2];
 static inline V rec_inverse(V a) { if (g_inv_calls < NMAX + 2) g_inv_arg[g_inv_calls] = a; g_inv_calls++; return __CPROVER_uninterpreted_inverse(a); }
-static int g_zero_calls, g_zero_true, g_zero_last;
-static inline _Bool rec_is_zero(V a) { const _Bool r = __CPROVER_uninterpreted_is_zero(a) ? 1 : 0; g_zero_calls++; if (r) g_zero_true++; g_zero_last = r; return r; }
+static int g_zero_calls, g_zero_true, g_zero_last; static V g_zero_arg[CAP_NNZ + 1]; static _Bool g_zero_res[CAP_NNZ + 1];
+static inline _Bool rec_is_zero(V a)
+{
+  const _Bool r = __CPROVER_uninterpreted_is_zero(a) ? 1 : 0;
+  if (g_zero_calls < (int)CAP_NNZ + 1) { g_zero_arg[g_zero_calls] = a; g_zero_res[g_zero_calls] = r; }
+  g_zero_calls++; if (r) g_zero_true++; g_zero_last = r; return r;
+}
 #undef math_inverse
 #undef math_is_zero
 #define math_inverse(a) rec_inverse((V)(a))
@@ -660,17 +665,27 @@ static _Bool factor_wf(const crs *F, size_t n, size_t cap, _Bool lower)
     }
   return 1;
 }
-/* every stored entry (i,c) of F is a stored entry of A, and its value is not zero */
-static _Bool factor_in_pattern(const crs *F, const crs *A, size_t n)
+/* pattern(L) + diagonal + pattern(U) == pattern(A) minus the entries whose computed value is_zero, entry by entry:
+ * row i of A (strictly ascending) is tested in the order  pivot, entries left of the diagonal, entries right of it  (one is_zero call each,
+ * logged above); the entries whose test is false are exactly the stored entries of L / U row i, in order, holding the tested value */
+static _Bool factors_are_kept_entries(const crs *L, const crs *U, const crs *A, size_t n)
 {
-  for (size_t i = 0; i < NMAX; ++i) if (i < n)
-    for (size_t j = 0; j < CAP_NNZ; ++j) if ((ptrdiff_t)j >= F->ptr[i] && (ptrdiff_t)j < F->ptr[i + 1]) { if (count_in_row(A, i, (size_t)F->col[j]) != 1) return 0; }
-  return 1;
-}
-static _Bool factor_nonzero(const crs *F, size_t n)
-{
-  for (size_t j = 0; j < CAP_NNZ; ++j) if (j < F->nnz) { if (RAW_IS_ZERO(F->val[j])) return 0; }
-  (void)n;
+  size_t call = 0; ptrdiff_t lpos = 0, upos = 0;
+  for (size_t i = 0; i < NMAX; ++i) if (i < n) {
+    if (call > CAP_NNZ || g_zero_res[call]) return 0;                     /* the pivot of row i tested non-zero */
+    call++;
+    for (int side = 0; side < 2; ++side)
+      for (size_t j = 0; j < CAP_NNZ; ++j) if ((ptrdiff_t)j >= A->ptr[i] && (ptrdiff_t)j < A->ptr[i + 1] && (side == 0 ? (size_t)A->col[j] < i : (size_t)A->col[j] > i)) {
+        if (call > CAP_NNZ) return 0;
+        if (!g_zero_res[call]) {
+          const crs *F = side == 0 ? L : U; ptrdiff_t *pos = side == 0 ? &lpos : &upos;
+          if (!(*pos < F->ptr[i + 1] && F->col[*pos] == A->col[j] && F->val[*pos] == g_zero_arg[call])) return 0;
+          (*pos)++;
+        }
+        call++;
+      }
+    if (lpos != L->ptr[i + 1] || upos != U->ptr[i + 1]) return 0;
+  }
   return 1;
 }
 """
@@ -720,10 +735,9 @@ void h_ilu0(void)
       const _Bool lwf = factor_wf(S.L, n, CAP_NNZ, 1), uwf = factor_wf(S.U, n, CAP_NNZ, 0);
       ENSURES(lwf, "ilu0: L is n x n, ptr monotone from 0 to nnz, every column strictly LEFT of the diagonal and strictly ascending");
       ENSURES(uwf, "ilu0: U is n x n, ptr monotone from 0 to nnz, every column strictly RIGHT of the diagonal, in range and strictly ascending");
-      ENSURES(!lwf || !uwf || (factor_in_pattern(S.L, A, n) && factor_in_pattern(S.U, A, n)), "ilu0: pattern(L) and pattern(U) are subsets of pattern(A) (no fill-in: ILU(0))");
-      ENSURES(!lwf || !uwf || (factor_nonzero(S.L, n) && factor_nonzero(S.U, n)), "ilu0: every stored value of L and U is non-zero (zeros are dropped from the factors)");
-      ENSURES(!lwf || !uwf || (S.L->nnz + S.U->nnz + n + (size_t)g_zero_true == nnzA && (size_t)g_zero_calls == nnzA),
-              "ilu0: pattern(L) + diagonal + pattern(U) == pattern(A) minus the entries whose value is_zero: every entry of A is tested exactly once and the counts add up");
+      ENSURES((size_t)g_zero_calls == nnzA, "ilu0: every stored entry of A is tested for zero exactly once (n pivots + every off-diagonal entry)");
+      ENSURES(!lwf || !uwf || (size_t)g_zero_calls != nnzA || factors_are_kept_entries(S.L, S.U, A, n),
+              "ilu0: row by row, the stored entries of L / U are exactly the entries of A left / right of the diagonal whose computed value is not is_zero, in order, each holding the tested value");
       _Bool dinv = g_inv_calls == (int)n;
       for (size_t i = 0; i < NMAX; ++i) if (i < n && dinv) { if (S.D[i] != __CPROVER_uninterpreted_inverse(g_inv_arg[i]) || RAW_IS_ZERO(g_inv_arg[i])) dinv = 0; }
       ENSURES(dinv, "ilu0: exactly one inversion per row, D[i] == inverse(pivot_i) and the inverted pivot was tested non-zero (zero pivot => exception)");
@@ -736,9 +750,9 @@ void h_ilu0(void)
 }
 """,
     entry='h_ilu0', mode='unwound', unwind='max(ZMAX,NMAX)+3', model='uf',
-    variants=[{'NMAX': 3, 'ZMAX': 6, 'DIAG': 1}, {'NMAX': 3, 'ZMAX': 8, 'DIAG': 0, 'CXC_NOCOVER': 1}],
+    variants=[{'NMAX': 3, 'ZMAX': 5, 'DIAG': 1}, {'NMAX': 3, 'ZMAX': 8, 'DIAG': 0, 'CXC_NOCOVER': 1}],
     thorough_variants=[{'NMAX': 3, 'ZMAX': 9, 'DIAG': 1}, {'NMAX': 3, 'ZMAX': 8, 'DIAG': 0, 'CXC_NOCOVER': 1}],
-    bound_text='n <= 3, nnz <= 6 with a full diagonal (thorough: nnz <= 9 = every 3x3 pattern, measured 170 s), nnz <= 8 = every 3x3 pattern with a missing diagonal; rows strictly ascending, pattern symbolic, values uninterpreted (is_zero an uninterpreted predicate: '
+    bound_text='n <= 3, nnz <= 5 with a full diagonal (thorough: nnz <= 9 = every 3x3 pattern; measured 100 s / 120 s at nnz <= 6 / about 4 min), nnz <= 8 = every 3x3 pattern with a missing diagonal; rows strictly ascending, pattern symbolic, values uninterpreted (is_zero an uninterpreted predicate: '
                'every combination of dropped entries / zero pivots)',
     assumptions=A_RELAX + A_UF + A_UF16 + [
         'A-sorted: the rows of A are sorted by column without duplicates (ILU(0) walks each row up to the diagonal; amgcl sorts the rows of every level matrix)',
